@@ -1,4 +1,5 @@
 CONSTANTS MaxN = 300 MaxM = 64
 SPECIFICATION Spec
 INVARIANT SplitOK
+INVARIANT LoopOK
 CHECK_DEADLOCK FALSE
